@@ -16,7 +16,7 @@ use crate::refmodel::*;
 use crate::scratch;
 
 pub fn meta(id: &'static str) -> Meta {
-    let common = "references of 1..3 contigs given to the real RefSka::new + map + write_aln/write_vcf (each run in a forked child), samples presented as forged dictionaries so that ANY presence pattern and middle byte can occur. Level A (writer state machine), k=5 and 7: contig lengths from {1, h, k-1, k, k+1, k+2, 2k-1, 2k, 2k+1, 3k} (all single contigs, all ordered pairs, a declared set of triples incl. contigs without k-mers before/between/after others); for each reference EVERY subset of its k-mer centres as 'matched' (references with more than 12 centres: every subset of every window of 10 consecutive centres, rest all-matched or all-unmatched), middle byte cycling through reference base / other base / ambiguity code / N, eight samples per run (one pattern per sample column), both strand modes, mask flags. Level B (reference handling), k=5: every reference over {A,C,G,T,N} up to length 7 (thorough 8) mapped against itself, case variants, every single substitution and every deletion of 1..k letters of a repeat-free reference, reverse-complemented and swapped contigs, planted repeats (same/opposite strand, across contigs, overlapping, behind a contig shorter than k) under all four mask-flag combinations; an IUPAC code (either case) at every position of a reference contig, against samples that carry each of the four bases there with and without an adjacent SNP.";
+    let common = "references of 1..3 contigs (the FASTA written in one of four layouts per case: one line per contig; lines of 4; lines of 3 with CRLF; one line with CRLF and no final line end) given to the real RefSka::new + map + write_aln/write_vcf (each run in a forked child), samples presented as forged dictionaries so that ANY presence pattern and middle byte can occur. Level A (writer state machine), k=5 and 7: contig lengths from {1, h, k-1, k, k+1, k+2, 2k-1, 2k, 2k+1, 3k} (all single contigs, all ordered pairs, a declared set of triples incl. contigs without k-mers before/between/after others); for each reference EVERY subset of its k-mer centres as 'matched' (references with more than 12 centres: every subset of every window of 10 consecutive centres, rest all-matched or all-unmatched), middle byte cycling through reference base / other base / ambiguity code / N, eight samples per run (one pattern per sample column), both strand modes, mask flags. Level B (reference handling), k=5: every reference over {A,C,G,T,N} up to length 7 (thorough 8) mapped against itself, case variants, every single substitution and every deletion of 1..k letters of a repeat-free reference, reverse-complemented and swapped contigs, planted repeats (same/opposite strand, across contigs, overlapping, behind a contig shorter than k) under all four mask-flag combinations; an IUPAC code (either case) at every position of a reference contig, against samples that carry each of the four bases there with and without an adjacent SNP.";
     if id == "C04" {
         Meta {
             id: "C04",
@@ -76,9 +76,39 @@ pub fn case_from(v: &Value) -> Result<MapCase, String> {
     Ok(MapCase { reference, table: Table { k: v["k"].as_u64().unwrap() as usize, rc: v["rc"].as_bool().unwrap(), names, rows }, ambig_mask: v["ambig_mask"].as_bool().unwrap(), repeat_mask: v["repeat_mask"].as_bool().unwrap() })
 }
 
+/// The reference FASTA in one of four layouts, chosen from the case itself (so that a replay writes the same
+/// file): 0 = one line per contig, LF; 1 = lines of 4, LF; 2 = lines of 3, CRLF; 3 = one line, CRLF, no final
+/// line end. Headers carry a description after the contig name.
+fn ref_layout(reference: &[Vec<u8>], layout: u64) -> Vec<u8> {
+    let (width, eol): (usize, &[u8]) = match layout % 4 {
+        0 => (usize::MAX, b"\n"),
+        1 => (4, b"\n"),
+        2 => (3, b"\r\n"),
+        _ => (usize::MAX, b"\r\n"),
+    };
+    let mut out = Vec::new();
+    for (i, s) in reference.iter().enumerate() {
+        out.extend_from_slice(format!(">ctg{i} some description").as_bytes());
+        out.extend_from_slice(eol);
+        if s.is_empty() {
+            continue;
+        }
+        for chunk in s.chunks(width.min(s.len().max(1))) {
+            out.extend_from_slice(chunk);
+            out.extend_from_slice(eol);
+        }
+    }
+    if layout % 4 == 3 {
+        for _ in 0..eol.len() {
+            out.pop();
+        }
+    }
+    out
+}
+
 fn ref_file(c: &MapCase) -> (String, RefSeq) {
-    let named: Vec<(String, Vec<u8>)> = c.reference.iter().enumerate().map(|(i, s)| (format!("ctg{i} some description"), s.clone())).collect();
-    let path = scratch::write("c04_ref.fa", &scratch::fasta_named(&named));
+    let layout = crate::explore::hash64(&(&c.reference, c.table.rows.len()));
+    let path = scratch::write("c04_ref.fa", &ref_layout(&c.reference, layout));
     (path.clone(), RefSeq { path, names: (0..c.reference.len()).map(|i| format!("ctg{i}")).collect(), seqs: c.reference.clone() })
 }
 
